@@ -726,6 +726,8 @@ def _tstr(t):
         return '[%s; %s]' % (_tstr(t[1]), t[2])
     if k == 'lam':
         return '|%s| %s' % (', '.join(t[2]), _tstr(t[3]))
+    if k == 'old':
+        return 'old(%s)' % _tstr(t[1])
     if k == 'v0':
         return '%s@entry' % t[1]
     if k == 'phi':
